@@ -153,6 +153,28 @@ def c32 (c : Ctx) (k : Kind) (cfg : Cfg) (view : Option (List (Nat × Int))) (ta
     if c.implT == want then "ok" else s!"bad c32-flush-mismatch want={want}"
   | _ => "ok"
 
+/-- (local index, remote index) of a tunnel line of section I -/
+def indexPairOf (e : String) : Option (Nat × Nat) :=
+  match e.splitOn ":" with
+  | k :: _ :: ri :: _ => do pure (← k.toNat?, ← ri.toNat?)
+  | _ => none
+
+/-- C31 on the two-node stream: (i) a node swaps its primary only if the peer's first address is not
+smaller than its own first address, (ii) the tunnel an initiator installs on completion is one the
+responder holds with mirrored indexes (`peerPairs` = the responder's (local, remote) index pairs). -/
+def c31 (c : Ctx) (k : Kind) (res : String) (swapAllowed : Option Bool) (peerPairs : List (Nat × Nat)) : String :=
+  let swapV :=
+    match swapAllowed with
+    | some false => if res == "swap" || c.implH != c.preH then "bad c31-wrong-side-swapped" else "ok"
+    | _ => "ok"
+  if swapV != "ok" then swapV else
+  match k with
+  | .s2Complete _ _ _ =>
+    let pre := (inner c.preI).filterMap indexPairOf |>.map (·.1)
+    let fresh := ((inner c.implI).filterMap indexPairOf).filter (fun t => !pre.contains t.1)
+    if fresh.all (fun t => peerPairs.contains (t.2, t.1)) then "ok" else "bad c31-initiator-tunnel-unpaired"
+  | _ => "ok"
+
 def tagOf (k : Kind) (op : Op) (res : String) : String :=
   match k with
   | .s1Fresh _ => "s1:fresh"
